@@ -16,7 +16,7 @@ import (
 func init() {
 	Register(&Property{
 		ID:    "C42",
-		Floor: 18,
+		Floor: 21,
 		Clauses: "html/atom, exhaustively over the generated tables read from source: the hash function is xor-then-multiply over the accumulated value and returns it " +
 			"(multiplier read from fnv); Lookup probes table[h&mask] then table[(h>>k)&mask] with h = fnv(seed, s), mask < len(table) (seed, k, mask read from Lookup); " +
 			"Atom.String and Atom.string decode atomText[a>>s : a>>s + a&m] with the same s,m, which is also the length mask used by Lookup; " +
@@ -182,9 +182,9 @@ func c42(c *Ctx) {
 		return
 	}
 	var nonZero []ssa.Instruction
-	HxEach(fn, func(in ssa.Instruction) {
+	HtmEach(fn, func(in ssa.Instruction) {
 		if r, ok := in.(*ssa.Return); ok && len(r.Results) == 1 {
-			if k, isConst := HxConstInt(r.Results[0]); !(isConst && k == 0) {
+			if k, isConst := HtmConstInt(r.Results[0]); !(isConst && k == 0) {
 				nonZero = append(nonZero, in)
 			}
 		}
@@ -203,7 +203,7 @@ func c42(c *Ctx) {
 	}
 	// length-only tests must let every defined length through to a table return
 	var cut []string
-	HxEach(fn, func(in ssa.Instruction) {
+	HtmEach(fn, func(in ssa.Instruction) {
 		ifi, ok := in.(*ssa.If)
 		if !ok {
 			return
@@ -230,7 +230,7 @@ func c42(c *Ctx) {
 			if !holds {
 				succ = ifi.Block().Succs[1]
 			}
-			if !HxBlockReaches(succ, nonZero) {
+			if !HtmBlockReaches(succ, nonZero) {
 				cut = append(cut, fmt.Sprintf("length %d fails `%s`", l, a))
 			}
 		}
@@ -258,7 +258,7 @@ func c42FnvShape(c *Ctx) (uint32, bool) {
 		return 0, false
 	}
 	var muls []*ssa.BinOp
-	HxEach(fn, func(in ssa.Instruction) {
+	HtmEach(fn, func(in ssa.Instruction) {
 		if b, ok := in.(*ssa.BinOp); ok && b.Op == token.MUL {
 			muls = append(muls, b)
 		}
@@ -267,12 +267,12 @@ func c42FnvShape(c *Ctx) (uint32, bool) {
 		c.Fail(rule, name+": one multiply per byte", fn.Pos(), fmt.Sprintf("found %d multiplications", len(muls)))
 		return 0, false
 	}
-	x, k, ok := HxBin(muls[0], token.MUL)
+	x, k, ok := HtmBin(muls[0], token.MUL)
 	if !ok {
 		c.Fail(rule, name+": multiplier is a constant", muls[0].Pos(), "the multiplication has no constant operand")
 		return 0, false
 	}
-	xor, ok := HxStrip(x).(*ssa.BinOp)
+	xor, ok := HtmStrip(x).(*ssa.BinOp)
 	if !ok || xor.Op != token.XOR {
 		c.Fail(rule, name+": xor-then-multiply", muls[0].Pos(), "the multiplied value is `"+Term(x)+"`, not h ^ byte")
 		return 0, false
@@ -280,9 +280,9 @@ func c42FnvShape(c *Ctx) (uint32, bool) {
 	// one xor operand is the loop-carried accumulator (a phi fed by the parameter h and by the product), the other a byte of s
 	var acc *ssa.Phi
 	var other ssa.Value
-	if p, ok := HxStrip(xor.X).(*ssa.Phi); ok {
+	if p, ok := HtmStrip(xor.X).(*ssa.Phi); ok {
 		acc, other = p, xor.Y
-	} else if p, ok := HxStrip(xor.Y).(*ssa.Phi); ok {
+	} else if p, ok := HtmStrip(xor.Y).(*ssa.Phi); ok {
 		acc, other = p, xor.X
 	}
 	good := acc != nil
@@ -300,7 +300,7 @@ func c42FnvShape(c *Ctx) (uint32, bool) {
 	}
 	if good {
 		// the byte is an element of parameter s
-		u, ok := HxStrip(other).(*ssa.UnOp)
+		u, ok := HtmStrip(other).(*ssa.UnOp)
 		good = ok && u.Op == token.MUL
 		if good {
 			ia, ok := u.X.(*ssa.IndexAddr)
@@ -313,10 +313,10 @@ func c42FnvShape(c *Ctx) (uint32, bool) {
 	}
 	retOK := true
 	n := 0
-	HxEach(fn, func(in ssa.Instruction) {
+	HtmEach(fn, func(in ssa.Instruction) {
 		if r, ok := in.(*ssa.Return); ok {
 			n++
-			if len(r.Results) != 1 || HxStrip(r.Results[0]) != ssa.Value(acc) {
+			if len(r.Results) != 1 || HtmStrip(r.Results[0]) != ssa.Value(acc) {
 				retOK = false
 			}
 		}
@@ -341,7 +341,7 @@ func c42LookupShape(c *Ctx, tabLen int64) (seed uint32, shift uint32, mask uint3
 	}
 	var probes []probe
 	bad := ""
-	HxEach(fn, func(in ssa.Instruction) {
+	HtmEach(fn, func(in ssa.Instruction) {
 		ia, isIA := in.(*ssa.IndexAddr)
 		if !isIA {
 			return
@@ -350,21 +350,21 @@ func c42LookupShape(c *Ctx, tabLen int64) (seed uint32, shift uint32, mask uint3
 		if !isG || g.Name() != "table" {
 			return
 		}
-		x, m, ok := HxBin(ia.Index, token.AND)
+		x, m, ok := HtmBin(ia.Index, token.AND)
 		if !ok {
 			bad = "table index `" + Term(ia.Index) + "` is not masked with a constant"
 			return
 		}
 		sh := int64(0)
-		if y, k, ok := HxBin(x, token.SHR); ok {
+		if y, k, ok := HtmBin(x, token.SHR); ok {
 			x, sh = y, k
 		}
-		call, isCall := HxStrip(x).(*ssa.Call)
+		call, isCall := HtmStrip(x).(*ssa.Call)
 		if !isCall || CalleeName(&call.Call) != "html/atom.fnv" || len(call.Call.Args) != 2 {
 			bad = "table index `" + Term(ia.Index) + "` is not derived from fnv(seed, s)"
 			return
 		}
-		sd, isConst := HxConstInt(call.Call.Args[0])
+		sd, isConst := HtmConstInt(call.Call.Args[0])
 		if !isConst || call.Call.Args[1] != ssa.Value(fn.Params[0]) {
 			bad = "fnv is not called with a constant seed and the looked-up bytes: " + Term(call)
 			return
@@ -419,30 +419,30 @@ func c42DecodeShape(c *Ctx, atomText string) (shift, mask uint32, ok bool) {
 		}
 		var found *sm
 		bad := ""
-		HxEach(fn, func(in ssa.Instruction) {
+		HtmEach(fn, func(in ssa.Instruction) {
 			sl, isSl := in.(*ssa.Slice)
 			if !isSl {
 				return
 			}
-			if s, isStr := HxConstStr(sl.X); !isStr || s != atomText {
+			if s, isStr := HtmConstStr(sl.X); !isStr || s != atomText {
 				bad = "slices something other than atomText"
 				return
 			}
-			lo, s, ok1 := HxBin(sl.Low, token.SHR)
-			if !ok1 || HxStrip(lo) != ssa.Value(fn.Params[0]) {
+			lo, s, ok1 := HtmBin(sl.Low, token.SHR)
+			if !ok1 || HtmStrip(lo) != ssa.Value(fn.Params[0]) {
 				bad = "low bound `" + Term(sl.Low) + "` is not a >> const"
 				return
 			}
-			add, isAdd := HxStrip(sl.High).(*ssa.BinOp)
+			add, isAdd := HtmStrip(sl.High).(*ssa.BinOp)
 			if !isAdd || add.Op != token.ADD {
 				bad = "high bound `" + Term(sl.High) + "` is not start + length"
 				return
 			}
 			var m int64 = -1
 			for _, pair := range [][2]ssa.Value{{add.X, add.Y}, {add.Y, add.X}} {
-				st, s2, okS := HxBin(pair[0], token.SHR)
-				ln, m2, okM := HxBin(pair[1], token.AND)
-				if okS && okM && s2 == s && HxStrip(st) == ssa.Value(fn.Params[0]) && HxStrip(ln) == ssa.Value(fn.Params[0]) {
+				st, s2, okS := HtmBin(pair[0], token.SHR)
+				ln, m2, okM := HtmBin(pair[1], token.AND)
+				if okS && okM && s2 == s && HtmStrip(st) == ssa.Value(fn.Params[0]) && HtmStrip(ln) == ssa.Value(fn.Params[0]) {
 					m = m2
 				}
 			}
@@ -475,9 +475,9 @@ func c42Match(c *Ctx) {
 		return
 	}
 	var retTrue, retFalse []ssa.Instruction
-	HxEach(fn, func(in ssa.Instruction) {
+	HtmEach(fn, func(in ssa.Instruction) {
 		if r, ok := in.(*ssa.Return); ok && len(r.Results) == 1 {
-			if k, ok := HxStrip(r.Results[0]).(*ssa.Const); ok && k.Value != nil && k.Value.Kind() == constant.Bool {
+			if k, ok := HtmStrip(r.Results[0]).(*ssa.Const); ok && k.Value != nil && k.Value.Kind() == constant.Bool {
 				if constant.BoolVal(k.Value) {
 					retTrue = append(retTrue, in)
 				} else {
@@ -495,7 +495,7 @@ func c42Match(c *Ctx) {
 	// the byte comparison: an If over s[i] vs t[i] with the same index
 	var cmp *ssa.If
 	var diffSucc *ssa.BasicBlock
-	HxEach(fn, func(in ssa.Instruction) {
+	HtmEach(fn, func(in ssa.Instruction) {
 		ifi, ok := in.(*ssa.If)
 		if !ok {
 			return
@@ -505,7 +505,7 @@ func c42Match(c *Ctx) {
 			return
 		}
 		idx := func(v ssa.Value) (base ssa.Value, i ssa.Value) {
-			switch x := HxStrip(v).(type) {
+			switch x := HtmStrip(v).(type) {
 			case *ssa.Lookup: // string index (older go/ssa)
 				return x.X, x.Index
 			case *ssa.Index: // string or array index
@@ -537,7 +537,7 @@ func c42Match(c *Ctx) {
 		c.Fail(rule, name+": compares s[i] with t[i]", fn.Pos(), "no branch comparing the two arguments at the same index")
 		return
 	}
-	c.Check(!HxBlockReaches(diffSucc, retTrue), rule, name+": when s[i] != t[i] never returns true", cmp.Pos(), "",
+	c.Check(!HtmBlockReaches(diffSucc, retTrue), rule, name+": when s[i] != t[i] never returns true", cmp.Pos(), "",
 		"a return that may be true is reachable on the branch where the bytes differ")
 	// every return true is dominated by the loop-exit edge (index reached len(t))
 	okExit := true
@@ -562,7 +562,7 @@ func c42GlobalNotWritten(c *Ctx, pkg, name string) {
 	var bad []string
 	n := 0
 	for _, fn := range c.P.All {
-		HxEach(fn, func(in ssa.Instruction) {
+		HtmEach(fn, func(in ssa.Instruction) {
 			for _, op := range in.Operands(nil) {
 				g, ok := (*op).(*ssa.Global)
 				if !ok || g.Name() != name || g.Pkg == nil || Short(g.Pkg.Pkg.Path()) != pkg {
